@@ -15,37 +15,64 @@ from checks import fs_lattice as L
 
 PROP = "C01"
 LEVEL = "exploration"
-RULE = ("14 templates (flat, year dir, y/m/d, y/doy, year2/doy, y/m/d/h, "
+RULE = ("18 templates (flat, year dir, y/m/d, y/doy, year2/doy, y/m/d/h, "
         "fixed dir between temporal ones, user placeholder as dir / in file "
         "/ as dir below the day, wildcard+time_coverage, time_coverage "
-        "without wildcard, discrete, full end under day dirs) + a "
-        "single-file fileset x 3 windows (year end into a leap year, leap "
-        "day, ordinary midnight) x populations (whole pool of 7-9 files, "
-        "every single file; thorough: every pair and triple) x every query "
-        "(s<e) on the window's 6 h (20 min) lattice, each also shifted by "
-        "+1 us, open/both-open/before/after periods, `in` for periods and "
-        "every lattice instant, len(); option deviations (sort, only_path, "
-        "bundle by count/frequency, white/black filters, exclusion by name / "
-        "one / two periods, FileSet reused with warm info cache, and queries "
-        "on a FileSet object primed by earlier unfiltered and differently "
-        "filtered queries) on the whole "
-        "pool: one at a time (quick), all pairs (thorough); thorough adds a "
-        "zip file system. Non-trivial = the query selects a non-empty proper "
-        "subset of the population or an end point of the query coincides "
-        "with a file boundary; cases are distinct by construction.")
+        "without wildcard, discrete, full end under day dirs, month as "
+        "finest dir, `*` as a dir level, template relative to the working "
+        "directory, two user placeholders) + a single-file fileset x 3 "
+        "windows (year end into a leap year, leap day, ordinary midnight; "
+        "quick: the last four templates in one window each) x populations "
+        "(whole pool of 7-10 files, the empty population in existing empty "
+        "directories, every single file; thorough: every pair and triple) x "
+        "every query (s<e) on the window's 6 h (20 min) lattice, each also "
+        "shifted by +1 us, open/both-open/before/"
+        "after periods, `in` for periods; `t in fileset` for every lattice "
+        "instant and, per file, t0, t1, 1 us and one name unit before t0 / "
+        "after t1 (these also as period (t, t+1us)); len(). Option deviations "
+        "on the whole pool: sort, only_path, no_files_error=False, bundle by "
+        "count/frequency, white / black / white-and-black filters (on one or "
+        "both user placeholders), exclusion by name / one / two / three "
+        "periods, FileSet reused with warm info cache - each on every "
+        "(s<e)/open/before/after query; on adjacent lattice pairs and the "
+        "open/before/after periods only: queries spelled as full ISO string / "
+        "shortest documented string / pandas.Timestamp / numpy.datetime64, "
+        "an excluded period given as strings, and exclusion set, changed and "
+        "reset on a live FileSet object between queries; one FileSet object "
+        "primed by earlier unfiltered and differently filtered queries. One "
+        "deviation at a time plus {sort=False, no_files_error=False} x bundle "
+        "by frequency on the adjacent/open queries (quick), "
+        "all pairs (thorough); thorough adds a zip file system (default "
+        "options, and filters for user-placeholder templates). Non-trivial = "
+        "the query selects a non-empty proper subset of the population or an "
+        "end point of the query coincides with a file boundary; a membership "
+        "question for an instant is non-trivial when a file covers the "
+        "instant or the instant lies 1 us / one name unit outside a file's "
+        "coverage; cases are distinct by construction.")
 ASSUMPTIONS = [
     "each file sits in the directory of its start and lasts at most one "
-    "period of the finest directory level (built into the generator)",
+    "period of the finest directory level (built into the generator; at "
+    "most 4 days under month directories)",
     "dates 1965-2064; whole minutes (seconds for the hour-level template)",
     "excluded periods have end points that never coincide with a file "
     "boundary (touching is left open by the statement)",
     "black-list values are not prefixes of other values (documented regex "
     "semantics)",
+    "start < end (typhon documents a ValueError for an empty period, and the "
+    "statement's overlap rule is not meant for one); len() of an empty "
+    "fileset may be 0 or NoFilesError",
+    "the item type under only_path is not judged (str and FileInfo are "
+    "compared by path; the statement does not fix it)",
+    "a black-list entry for a placeholder that the template does not have "
+    "is not enumerated (the statement does not say whether it is an error)",
+    "the relative template is used with the working directory unchanged "
+    "between construction and queries",
     "FileSet.to_dataframe is not checked (not part of the statement)",
 ]
 
-BIG = dt.datetime(9999, 1, 1)
-
+# templates that the quick tier runs in one window only
+QUICK_WINDOWS = {"month": ("leapday",), "wilddir": ("midnight",),
+                 "relative": ("midnight",), "satver": ("midnight",)}
 
 # ------------------------------------------------------------------ oracle
 
@@ -53,23 +80,8 @@ def overlaps(f, s, e):
     return (e is None or f.t0 < e) and (s is None or f.t1 >= s)
 
 
-def passes(f, opts):
-    if opts.get("exclude_names") and f.path in opts["exclude_names"]:
-        return False
-    for p0, p1 in opts.get("exclude_periods", ()):
-        if f.t0 <= p1 and f.t1 >= p0:
-            return False
-    wl = opts.get("white")
-    if wl is not None and f.attrs.get("sat") not in wl:
-        return False
-    bl = opts.get("black")
-    if bl is not None and f.attrs.get("sat") in bl:
-        return False
-    return True
-
-
 def expected(files, s, e, opts):
-    sel = [f for f in files if overlaps(f, s, e) and passes(f, opts)]
+    sel = [f for f in files if overlaps(f, s, e) and L.passes(f, opts)]
     return sorted(sel, key=lambda f: (f.t0, f.t1))
 
 
@@ -86,13 +98,62 @@ def bin_of(t, freq):
 
 # ------------------------------------------------------------------ options
 
+# An option entry is (label, find-kwargs, fileset-kwargs, oracle-opts). Keys
+# of the fileset-kwargs that start with "_" are directions for the harness:
+#   _reuse     one FileSet object answers all queries of the entry
+#   _steps     calls made on that object before the judged queries
+#   _spell     the type in which start and end are handed over (L.spell)
+#   _adjacent  judged on adjacent lattice pairs and open periods only
+
+ADJACENT = ("adjacent", {}, dict(_adjacent=True), {})
+
+
+def filter_entries(spec):
+    out = []
+    if spec.get("sat"):
+        out += [
+            ("white=A", {"sat": "A"}, dict(white={"sat": ["A"]})),
+            ("white=[A,B]", {"sat": ["A", "B"]},
+             dict(white={"sat": ["A", "B"]})),
+            ("white=B", {"sat": "B"}, dict(white={"sat": ["B"]})),
+            ("black=A", {"!sat": "A"}, dict(black={"sat": ["A"]})),
+            ("black=[B]", {"!sat": ["B"]}, dict(black={"sat": ["B"]})),
+            ("white=[A,B]&black=A", {"sat": ["A", "B"], "!sat": "A"},
+             dict(white={"sat": ["A", "B"]}, black={"sat": ["A"]})),
+        ]
+    if spec.get("ver"):
+        out += [
+            ("black=ver2", {"!ver": "2"}, dict(black={"ver": ["2"]})),
+            ("black=B&ver2", {"!sat": "B", "!ver": "2"},
+             dict(black={"sat": ["B"], "ver": ["2"]})),
+            ("white=A&black=ver2", {"sat": "A", "!ver": "2"},
+             dict(white={"sat": ["A"]}, black={"ver": ["2"]})),
+            ("white=ver[1,2]&black=A", {"ver": ["1", "2"], "!sat": ["A"]},
+             dict(white={"ver": ["1", "2"]}, black={"sat": ["A"]})),
+        ]
+    return [(label, dict(filters=flt), {}, opts) for label, flt, opts in out]
+
+
+def periods_of(tname, lat):
+    """Excluded periods whose end points lie 7 name units off the lattice."""
+    off = 7 * L.MIN if tname != "ymdh" else 7 * dt.timedelta(seconds=1)
+    q = len(lat) // 4
+    small = (lat[q] + off, lat[q + 1] + off)
+    big = (lat[1] + off, lat[-2] + off)
+    other = (lat[3 * q] + off, lat[3 * q] + 2 * off)
+    # touching periods (one ends exactly where the next starts) and a chain
+    # of three: the shapes an interval tree distinguishes
+    nxt = (small[1], small[1] + (small[1] - small[0]))
+    third = (nxt[1], nxt[1] + (small[1] - small[0]))
+    return small, big, other, nxt, third
+
+
 def option_menu(tname, files, lat):
-    """Deviations from the default call; each is (label, find-kwargs,
-    fileset-kwargs, oracle-opts)."""
-    spec = L.TEMPLATES[tname]
+    """Deviations from the default call."""
     menu = [
         ("sort=False", dict(sort=False), {}, {}),
         ("only_path", dict(only_path=True), {}, {}),
+        ("no_files_error=False", dict(no_files_error=False), {}, {}),
         ("bundle=1", dict(bundle=1), {}, {}),
         ("bundle=2", dict(bundle=2), {}, {}),
         ("bundle=3", dict(bundle=3), {}, {}),
@@ -100,78 +161,86 @@ def option_menu(tname, files, lat):
          dict(bundle="6h" if tname != "ymdh" else "1h"), {}, {}),
         ("bundle=1D", dict(bundle="1D"), {}, {}),
     ]
-    if spec.get("sat"):
-        menu += [
-            ("white=A", dict(filters={"sat": "A"}), {}, dict(white=["A"])),
-            ("white=[A,B]", dict(filters={"sat": ["A", "B"]}), {},
-             dict(white=["A", "B"])),
-            ("white=B", dict(filters={"sat": "B"}), {}, dict(white=["B"])),
-            ("black=A", dict(filters={"!sat": "A"}), {}, dict(black=["A"])),
-            ("black=[B]", dict(filters={"!sat": ["B"]}), {},
-             dict(black=["B"])),
-        ]
+    menu += filter_entries(L.TEMPLATES[tname])
     if files:
         name = files[len(files) // 2].path
         menu.append(("exclude-name", {}, dict(exclude=[name]),
                      dict(exclude_names=[name])))
-    off = 7 * L.MIN if tname != "ymdh" else 7 * dt.timedelta(seconds=1)
-    q = len(lat) // 4
-    p_small = (lat[q] + off, lat[q + 1] + off)
-    p_big = (lat[1] + off, lat[-2] + off)
-    p_other = (lat[3 * q] + off, lat[3 * q] + 2 * off)
-    # touching periods (one ends exactly where the next starts) and a chain
-    # of three: the shapes an interval tree distinguishes
-    p_next = (p_small[1], p_small[1] + (p_small[1] - p_small[0]))
-    p_third = (p_next[1], p_next[1] + (p_small[1] - p_small[0]))
+    small, big, other, nxt, third = periods_of(tname, lat)
     menu += [
-        ("exclude-2-touching", {}, dict(exclude=[p_small, p_next]),
-         dict(exclude_periods=[p_small, p_next])),
-        ("exclude-3-chain", {}, dict(exclude=[p_next, p_third, p_small]),
-         dict(exclude_periods=[p_small, p_next, p_third])),
-        ("exclude-zero-length", {}, dict(exclude=[(p_small[0], p_small[0]),
-                                                  p_next]),
-         dict(exclude_periods=[(p_small[0], p_small[0]), p_next])),
-        ("exclude-1-period", {}, dict(exclude=[p_small]),
-         dict(exclude_periods=[p_small])),
-        ("exclude-covering-period", {}, dict(exclude=[p_big]),
-         dict(exclude_periods=[p_big])),
-        ("exclude-2-disjoint", {}, dict(exclude=[p_small, p_other]),
-         dict(exclude_periods=[p_small, p_other])),
-        ("exclude-2-nested", {}, dict(exclude=[p_big, p_small]),
-         dict(exclude_periods=[p_big, p_small])),
+        ("exclude-2-touching", {}, dict(exclude=[small, nxt]),
+         dict(exclude_periods=[small, nxt])),
+        ("exclude-3-chain", {}, dict(exclude=[nxt, third, small]),
+         dict(exclude_periods=[small, nxt, third])),
+        ("exclude-zero-length", {}, dict(exclude=[(small[0], small[0]), nxt]),
+         dict(exclude_periods=[(small[0], small[0]), nxt])),
+        ("exclude-1-period", {}, dict(exclude=[small]),
+         dict(exclude_periods=[small])),
+        ("exclude-covering-period", {}, dict(exclude=[big]),
+         dict(exclude_periods=[big])),
+        ("exclude-2-disjoint", {}, dict(exclude=[small, other]),
+         dict(exclude_periods=[small, other])),
+        ("exclude-2-nested", {}, dict(exclude=[big, small]),
+         dict(exclude_periods=[big, small])),
+        ("exclude-period-as-strings", {},
+         dict(exclude=[(L.spell(small[0], "iso"), L.spell(small[1], "short"))],
+              _adjacent=True), dict(exclude_periods=[small])),
         ("reuse", {}, dict(_reuse=True), {}),
     ]
+    menu += [("spell=" + how, {}, dict(_spell=how, _adjacent=True), {})
+             for how in L.SPELLINGS]
     return menu
 
 
-def query_histories(tname):
+def query_histories(tname, files, lat):
     """Option sets that are judged on ONE long-lived FileSet object which has
-    answered other queries before (`_primed`): an unfiltered find() over
-    everything and, for user-placeholder templates, a find() with another
-    filter. What an earlier query cached must not leak into a later one."""
-    out = [(("primed", {}, dict(_reuse=True, _primed=True), {}),)]
+    answered other queries or was reconfigured before (`_steps`). What an
+    earlier query cached must not leak into a later one, and the exclusion
+    in force is the one set last."""
+    everything = ("find", None)
+    steps = [everything]
     if L.TEMPLATES[tname].get("sat"):
-        for label, filters, opts in (
-                ("white=A", {"sat": "A"}, dict(white=["A"])),
-                ("white=B", {"sat": "B"}, dict(white=["B"])),
-                ("white=[A,B]", {"sat": ["A", "B"]}, dict(white=["A", "B"])),
-                ("black=A", {"!sat": "A"}, dict(black=["A"]))):
-            out.append((("primed", {}, dict(_reuse=True, _primed=True), {}),
-                        (label, dict(filters=filters), {}, opts)))
+        steps += [("find", {"sat": "A"}), ("find", {"sat": "B"})]
+    primed = ("primed", {}, dict(_reuse=True, _steps=tuple(steps)), {})
+    out = [(primed,)]
+    # followed by each white / black filter on the first user placeholder
+    for entry in filter_entries(L.TEMPLATES[tname])[:4]:
+        out.append((primed, entry))
+    small = periods_of(tname, lat)[0]
+    live = dict(_reuse=True, _adjacent=True)
+    if files:
+        name = files[len(files) // 2].path
+        out += [
+            (("find;exclude_files", {}, dict(live, _steps=(
+                everything, ("exclude_files", [name]))),
+              dict(exclude_names=[name])),),
+            (("exclude-name;find;exclude_files([])", {}, dict(
+                live, exclude=[name], _steps=(
+                    everything, ("exclude_files", []))), {}),),
+        ]
+    out += [
+        (("find;exclude_times", {}, dict(live, _steps=(
+            everything, ("exclude_times", [small]))),
+          dict(exclude_periods=[small])),),
+        (("exclude-period;find;exclude_times(None)", {}, dict(
+            live, exclude=[small], _steps=(
+                everything, ("exclude_times", None))), {}),),
+    ]
     return out
 
 
-def prime(fs, tname):
-    """Earlier queries on the same object (their answers are not judged
-    here)."""
-    list(fs.find(no_files_error=False))
-    if L.TEMPLATES[tname].get("sat"):
-        for other in ("A", "B"):
-            list(fs.find(filters={"sat": other}, no_files_error=False))
+def apply_steps(fs, steps):
+    """Earlier calls on the same object (the answers of the finds are not
+    judged here)."""
+    for method, arg in steps:
+        if method == "find":
+            list(fs.find(filters=arg, no_files_error=False))
+        else:
+            getattr(fs, method)(arg)
 
 
 def combine(devs):
-    """Merges a tuple of menu entries; None if they are incompatible."""
+    """Merges a tuple of option entries; None if they are incompatible."""
     find_kw, fs_kw, opts, labels = {}, {}, {}, []
     for label, fk, sk, oo in devs:
         for k, v in fk.items():
@@ -184,6 +253,8 @@ def combine(devs):
                         isinstance(x, str) for x in fs_kw["exclude"]):
                     return None          # two name / two period entries
                 fs_kw["exclude"] = fs_kw["exclude"] + v
+            elif k in ("_reuse", "_adjacent"):
+                fs_kw[k] = True
             elif k in fs_kw:
                 return None
             else:
@@ -193,45 +264,64 @@ def combine(devs):
                 return None
             opts[k] = v
         labels.append(label)
-    if "sort" in find_kw and "bundle" in find_kw:
-        return None                      # bundling re-sorts by design
     return "+".join(labels) or "default", find_kw, fs_kw, opts
 
 
 # ------------------------------------------------------------------ queries
 
-def queries(lat, tier, with_shift=True):
+def queries(lat, with_shift=True):
     out = []
     for i, s in enumerate(lat):
         for e in lat[i + 1:]:
             out.append((s, e))
             if with_shift:
                 out.append((s + L.US, e + L.US))
-    out += [(None, lat[len(lat) // 2]), (lat[len(lat) // 2], None),
+    return out + open_queries(lat)
+
+
+def open_queries(lat):
+    return [(None, lat[len(lat) // 2]), (lat[len(lat) // 2], None),
             (None, None),
             (lat[0] - dt.timedelta(days=800), lat[0] - dt.timedelta(days=790)),
             (lat[-1] + dt.timedelta(days=790),
              lat[-1] + dt.timedelta(days=800))]
-    return out
+
+
+def adjacent_queries(lat):
+    return list(zip(lat, lat[1:])) + open_queries(lat)
+
+
+def near_instants(tname, files):
+    """The ends of every file and the instants 1 us and one name unit outside
+    them."""
+    unit = dt.timedelta(seconds=1) if tname == "ymdh" else L.MIN
+    near = set()
+    for f in files:
+        near.update((f.t0 - unit, f.t0 - L.US, f.t0, f.t1, f.t1 + L.US,
+                     f.t1 + unit))
+    return sorted(near)
 
 
 # ------------------------------------------------------------------ running
 
-def do_find(fs, s, e, find_kw):
+def do_find(fs, s, e, find_kw, how=None):
     from typhon.files.fileset import NoFilesError
     kw = dict(find_kw)
     if s is not None:
-        kw["start"] = s
+        kw["start"] = L.spell(s, how)
     if e is not None:
-        kw["end"] = e
+        kw["end"] = L.spell(e, how)
     try:
         return list(fs.find(**kw))
     except NoFilesError:
         return []
 
 
-def judge_find(got, exp, find_kw):
-    """None or (key, expected, observed)."""
+def judge_find(got, exp, find_kw, base=None):
+    """None or (key, expected, observed). Relative paths in the answer are
+    read relative to the directory `base`."""
+    def path_of(x):
+        return os.path.join(base, os.fspath(x)) if base else os.fspath(x)
     exp_paths = [f.path for f in exp]
     bundle = find_kw.get("bundle")
     if bundle is not None:
@@ -239,11 +329,11 @@ def judge_find(got, exp, find_kw):
             return ("find/bundle-not-a-list", exp_paths, repr(got)[:300])
         if any(len(b) == 0 for b in got):
             return ("find/bundle-empty", exp_paths,
-                    [[os.fspath(x) for x in b] for b in got])
+                    [[path_of(x) for x in b] for b in got])
         flat = [x for b in got for x in b]
     else:
         flat = got
-    got_paths = [os.fspath(x) for x in flat]
+    got_paths = [path_of(x) for x in flat]
     if sorted(got_paths) != sorted(exp_paths):
         gs, es = set(got_paths), set(exp_paths)
         if len(gs) != len(got_paths):
@@ -259,11 +349,13 @@ def judge_find(got, exp, find_kw):
         by = {f.path: (f.t0, f.t1) for f in exp}
         keys = [by[p] for p in got_paths]
         if keys != sorted(keys):
-            return ("find/order", exp_paths, got_paths)
+            if find_kw.get("sort", True):
+                return ("find/order", exp_paths, got_paths)
+            return ("find/bundles-unordered-under-sort=False", exp_paths,
+                    got_paths)
         for x in flat:
-            if hasattr(x, "times") and tuple(x.times) != by[os.fspath(x)]:
-                return ("find/fileinfo-times", by[os.fspath(x)],
-                        list(x.times))
+            if hasattr(x, "times") and tuple(x.times) != by[path_of(x)]:
+                return ("find/fileinfo-times", by[path_of(x)], list(x.times))
     if bundle is not None:
         by = {f.path: f for f in exp}
         if isinstance(bundle, int):
@@ -273,7 +365,7 @@ def judge_find(got, exp, find_kw):
             if not ok:
                 return ("find/bundle-size", bundle, sizes)
         else:
-            bins = [[bin_of(by[os.fspath(x)].t0, bundle) for x in b]
+            bins = [[bin_of(by[path_of(x)].t0, bundle) for x in b]
                     for b in got]
             if any(len(set(b)) != 1 for b in bins):
                 return ("find/bundle-mixes-frequency-bins", bundle,
@@ -286,11 +378,13 @@ def judge_find(got, exp, find_kw):
 
 
 def check_population(res, root, tname, wname, files, qs, lat, option_sets,
-                     casebase, count_nontrivial=True):
+                     casebase):
     """Runs all queries for every option set on one population."""
     boundaries = set()
     for f in files:
         boundaries.update((f.t0, f.t1))
+    template = L.TEMPLATES[tname]["rel"]
+    base = root if L.TEMPLATES[tname].get("relative") else None
     for devs in option_sets:
         comb = combine(devs)
         if comb is None:
@@ -298,54 +392,78 @@ def check_population(res, root, tname, wname, files, qs, lat, option_sets,
         label, find_kw, fs_kw, opts = comb
         fs_kw = dict(fs_kw)
         reuse = fs_kw.pop("_reuse", False)
-        primed = fs_kw.pop("_primed", False)
-        fs = L.make_fileset(root, tname, **fs_kw) if reuse else None
-        if primed:
-            prime(fs, tname)
-        for s, e in qs:
+        steps = fs_kw.pop("_steps", ())
+        how = fs_kw.pop("_spell", None)
+        mine = adjacent_queries(lat) if fs_kw.pop("_adjacent", False) else qs
+        fs = None
+        for s, e in mine:
             exp = expected(files, s, e, opts)
             nt = (0 < len(exp) < len(files)) or s in boundaries \
                 or e in boundaries
             res.case(nontrivial=nt)
-            cur = fs if reuse else L.make_fileset(root, tname, **fs_kw)
+            case = dict(casebase, options=label, start=s, end=e,
+                        template=template)
+            if fs is None or not reuse:
+                fs, stage = None, "constructor"
+                try:
+                    fs = L.make_fileset(root, tname, **fs_kw)
+                    stage = "history"
+                    apply_steps(fs, steps)
+                except Exception as exc:
+                    L.not_the_watchdog(exc)
+                    res.violation("%s/exception/%s" % (
+                        stage, type(exc).__name__), case,
+                        [f.path for f in exp], repr(exc)[:300])
+                    fs = None
+                    continue
             try:
-                got = do_find(cur, s, e, find_kw)
-                bad = judge_find(got, exp, find_kw)
+                got = do_find(fs, s, e, find_kw, how)
+                bad = judge_find(got, exp, find_kw, base)
             except Exception as exc:
+                L.not_the_watchdog(exc)
                 bad = ("find/exception/" + type(exc).__name__,
                        [f.path for f in exp], repr(exc)[:300])
             if bad is None and label == "default" and s is not None \
                     and e is not None:
                 try:
-                    inside = (s, e) in cur
+                    inside = (s, e) in fs
                 except Exception as exc:
+                    L.not_the_watchdog(exc)
                     inside = repr(exc)[:200]
                 if inside is not bool(exp):
                     bad = ("contains/period", bool(exp), inside)
             if bad is not None:
-                res.violation(
-                    bad[0],
-                    dict(casebase, options=label, start=s, end=e,
-                         template=L.TEMPLATES[tname]["rel"]),
-                    bad[1], bad[2])
+                res.violation(bad[0], case, bad[1], bad[2])
     if casebase["kind"] != "pop":
         return
     # membership of instants and len() with default options
-    fs = L.make_fileset(root, tname)
-    for t in lat:
+    try:
+        fs = L.make_fileset(root, tname)
+    except Exception as exc:
+        L.not_the_watchdog(exc)
+        res.violation("constructor/exception/" + type(exc).__name__,
+                      dict(casebase, options="in"), None, repr(exc)[:300])
+        return
+    near = near_instants(tname, files)
+    questions = [(t, t) for t in sorted(set(lat).union(near))] + \
+        [(t, (t, t + L.US)) for t in near]
+    for t, item in questions:
         exp = any(f.t0 <= t <= f.t1 for f in files)
-        res.case(nontrivial=exp)
+        res.case(nontrivial=exp or t in near)
         try:
-            got = t in fs
+            got = item in fs
         except Exception as exc:
+            L.not_the_watchdog(exc)
             got = repr(exc)[:200]
         if got is not exp:
-            res.violation("contains/instant",
+            res.violation(
+                "contains/instant" if item is t else "contains/instant+1us",
                 dict(casebase, instant=t, options="in"), exp, got)
     res.case(nontrivial=True)
     try:
-        n = len(L.make_fileset(root, tname))
+        n = len(fs)
     except Exception as exc:
+        L.not_the_watchdog(exc)
         n = -1 if type(exc).__name__ == "NoFilesError" else repr(exc)[:200]
     if n == -1 and not files:
         n = 0
@@ -358,10 +476,12 @@ def shards(tier, seed):
     out = []
     maxsize = 1 if tier == "quick" else 3
     for tname in L.TEMPLATES:
-        for wname in L.WINDOWS:
+        wnames = QUICK_WINDOWS.get(tname, L.WINDOWS) if tier == "quick" \
+            else L.WINDOWS
+        for wname in wnames:
             n = len(L.pool(tname, wname))
             pops = list(L.populations(n, maxsize))
-            chunk = 12 if tier == "quick" else 24
+            chunk = 12
             for i in range(0, len(pops), chunk):
                 out.append(("pop", tier, tname, wname, pops[i:i + chunk]))
             nchunks = 2 if tier == "quick" else 12
@@ -373,6 +493,19 @@ def shards(tier, seed):
     return out
 
 
+def option_sets(tier, tname, files, lat):
+    menu = option_menu(tname, files, lat)
+    pairs = itertools.combinations(menu, 2)
+    if tier == "quick":
+        # the pairs in which the first option selects another path into the
+        # second
+        pairs = [(a, b, ADJACENT) for a, b in pairs
+                 if a[0] in ("sort=False", "no_files_error=False")
+                 and isinstance(b[1].get("bundle"), str)]
+    return menu, [(m,) for m in menu] + query_histories(tname, files, lat) \
+        + list(pairs)
+
+
 def run_shard(shard):
     res = driver.ShardResult()
     kind = shard[0]
@@ -382,39 +515,42 @@ def run_shard(shard):
     pl = L.pool(tname, wname)
     lat = L.lattice(tname, wname)
     root = driver.fresh_dir("c01")
-    if kind == "pop":
-        qs = queries(lat, tier)
-        for idx in shard[4]:
-            sub = os.path.join(root, "p" + "_".join(map(str, idx)))
-            files = L.materialise(sub, tname, [pl[i] for i in idx])
-            check_population(res, sub, tname, wname, files, qs, lat, [()],
-                             dict(kind="pop", tname=tname, window=wname,
-                                  population=idx))
-        res.sample(dict(template=L.TEMPLATES[tname]["rel"], window=wname,
-                        population=[pl[i][3] for i in idx],
-                        queries=len(qs)))
-    elif kind == "opt":
-        sub = os.path.join(root, "all")
-        files = L.materialise(sub, tname, pl)
-        menu = option_menu(tname, files, lat)
-        sets = [(m,) for m in menu] + query_histories(tname)
-        if tier == "thorough":
-            sets += list(itertools.combinations(menu, 2))
-        sets = sets[shard[4]::shard[5]]
-        qs = queries(lat, tier, with_shift=False)
-        check_population(res, sub, tname, wname, files, qs, lat, sets,
-                         dict(kind="opt", tname=tname, window=wname,
-                              population=list(range(len(pl)))))
-        res.count("option_sets", len(sets))
-        res.sample(dict(template=L.TEMPLATES[tname]["rel"], window=wname,
-                        options=[m[0] for m in menu]))
-    elif kind == "zip":
-        run_zip(res, root, tname, wname, pl, lat, tier)
+    cwd = os.getcwd()            # the relative template changes it
+    try:
+        if kind == "pop":
+            qs = queries(lat)
+            for idx in shard[4]:
+                sub = os.path.join(root, "p" + "_".join(map(str, idx)))
+                files = L.materialise(sub, tname, [pl[i] for i in idx],
+                                      dirs_only=() if idx else pl)
+                check_population(res, sub, tname, wname, files, qs, lat, [()],
+                                 dict(kind="pop", tname=tname, window=wname,
+                                      population=idx))
+            res.sample(dict(template=L.TEMPLATES[tname]["rel"], window=wname,
+                            population=[pl[i][3] for i in idx],
+                            queries=len(qs)))
+        elif kind == "opt":
+            sub = os.path.join(root, "all")
+            files = L.materialise(sub, tname, pl)
+            menu, sets = option_sets(tier, tname, files, lat)
+            sets = sets[shard[4]::shard[5]]
+            qs = queries(lat, with_shift=False)
+            check_population(res, sub, tname, wname, files, qs, lat, sets,
+                             dict(kind="opt", tname=tname, window=wname,
+                                  population=list(range(len(pl)))))
+            res.count("option_sets", len(sets))
+            res.sample(dict(template=L.TEMPLATES[tname]["rel"], window=wname,
+                            options=[m[0] for m in menu]))
+        elif kind == "zip":
+            run_zip(res, root, tname, wname, pl, lat)
+    finally:
+        os.chdir(cwd)
     return res
 
 
-def run_zip(res, root, tname, wname, pl, lat, tier):
-    """The same whole-pool population inside a zip archive (fsspec)."""
+def run_zip(res, root, tname, wname, pl, lat):
+    """The same whole-pool population inside a zip archive (fsspec): default
+    options and every filter of the menu."""
     import zipfile
     from fsspec.implementations.zip import ZipFileSystem
     from typhon.files import FileSet
@@ -429,22 +565,26 @@ def run_zip(res, root, tname, wname, pl, lat, tier):
     kw = {}
     if spec.get("tc") is not None:
         kw["time_coverage"] = spec["tc"]
-    for s, e in queries(lat, tier, with_shift=False):
-        exp = expected(files, s, e, {})
-        res.case(nontrivial=0 < len(exp) < len(files))
-        res.count("zip_queries")
-        fs = FileSet("data/" + spec["rel"], fs=ZipFileSystem(arch), name="z",
-                     **kw)
-        try:
-            got = do_find(fs, s, e, {})
-            bad = judge_find(got, exp, {})
-        except Exception as exc:
-            bad = ("find/exception/" + type(exc).__name__,
-                   [f.path for f in exp], repr(exc)[:300])
-        if bad is not None:
-            res.violation("zip/" + bad[0],
-                          dict(kind="zip", tname=tname, window=wname, start=s,
-                               end=e), bad[1], bad[2])
+    for label, find_kw, _, opts in [("default", {}, {}, {})] + \
+            filter_entries(spec):
+        for s, e in queries(lat, with_shift=False):
+            exp = expected(files, s, e, opts)
+            res.case(nontrivial=0 < len(exp) < len(files))
+            res.count("zip_queries")
+            try:
+                fs = FileSet("data/" + spec["rel"], fs=ZipFileSystem(arch),
+                             name="z", **kw)
+                got = do_find(fs, s, e, find_kw)
+                bad = judge_find(got, exp, find_kw)
+            except Exception as exc:
+                L.not_the_watchdog(exc)
+                bad = ("find/exception/" + type(exc).__name__,
+                       [f.path for f in exp], repr(exc)[:300])
+            if bad is not None:
+                res.violation("zip/" + bad[0],
+                              dict(kind="zip", tname=tname, window=wname,
+                                   options=label, start=s, end=e),
+                              bad[1], bad[2])
 
 
 def run_single(res):
@@ -455,20 +595,24 @@ def run_single(res):
     fsbuild.touch(path)
     lat = L.lattice("ymd", "leapday")
     for cov in [(lat[3], lat[6]), (lat[4], lat[4]), None]:
-        for s, e in queries(lat, "quick"):
-            fs = FileSet(path, time_coverage=cov, name="single")
+        for s, e in queries(lat):
             c0, c1 = cov if cov else (dt.datetime.min, dt.datetime.max)
             exp = (e is None or c0 < e) and (s is None or c1 >= s)
             res.case(nontrivial=cov is not None)
-            got = do_find(fs, s, e, {})
-            ok = [os.fspath(x) for x in got] == ([path] if exp else [])
-            if ok and exp and list(got[0].times) != [c0, c1]:
-                ok = False
+            try:
+                fs = FileSet(path, time_coverage=cov, name="single")
+                got = do_find(fs, s, e, {})
+                seen = [os.fspath(x) for x in got]
+                ok = seen == ([path] if exp else [])
+                if ok and exp and list(got[0].times) != [c0, c1]:
+                    ok = False
+            except Exception as exc:
+                L.not_the_watchdog(exc)
+                ok, seen = False, repr(exc)[:300]
             if not ok:
                 res.violation("single/find", dict(kind="single", cov=cov,
                                                   start=s, end=e),
-                              [path] if exp else [],
-                              [os.fspath(x) for x in got])
+                              [path] if exp else [], seen)
     res.sample(dict(kind="single", coverage=[lat[3], lat[6]]))
     return res
 
@@ -484,21 +628,22 @@ def replay(case):
         lat = L.lattice(tname, wname)
         root = driver.fresh_dir("c01r")
         if kind == "zip":
-            run_zip(res, root, tname, wname, pl, lat, "thorough")
+            run_zip(res, root, tname, wname, pl, lat)
         else:
             idx = case["population"]
-            files = L.materialise(root, tname, [pl[i] for i in idx])
-            menu = option_menu(tname, files, lat)
+            files = L.materialise(root, tname, [pl[i] for i in idx],
+                                  dirs_only=() if idx else pl)
             labels = case.get("options", "default")
             if labels in ("default", "in", "len"):
                 sets = [()]
             else:
-                by = {m[0]: m for m in menu}
-                for h in query_histories(tname):
+                by = {m[0]: m for m in option_menu(tname, files, lat)}
+                by[ADJACENT[0]] = ADJACENT
+                for h in query_histories(tname, files, lat):
                     for m in h:
                         by.setdefault(m[0], m)
                 sets = [tuple(by[l] for l in labels.split("+"))]
-            qs = queries(lat, "thorough")
+            qs = queries(lat)
             check_population(res, root, tname, wname, files, qs, lat, sets,
                              dict(kind=kind, tname=tname, window=wname,
                                   population=idx))
